@@ -127,16 +127,23 @@ def run(ctx):
     ins = [o for o in (tlc._parse_tla_string_list(l) for l in r.printed) if o]
     lines = sorted(set("%s %s %d" % (",".join(str(t) for t in o["argv"]) or "-", ",".join(str(n) for n in o["np"]), o["short"]) for o in ins))
     rc, evs = run_harness(ctx, exe, "parse", lines, "parse", ["3"])
-    exs = [[e] for e in evs]
-    if rc != 0:
-        exs.append([{"e": "Crash", "rc": str(rc), "input": lines[len(evs)] if len(evs) < len(lines) else ""}])
+    # the harness parses every command line in a process of its own: a crash is an observation about that input
+    crashes = [e for e in evs if e.get("e") != "parse"]
+    exs = [[e] for e in evs if e.get("e") == "parse"]
+    if rc != 0 or len(evs) != len(lines):
+        crashes.append({"e": "Crash", "rc": str(rc), "input": "harness: %d results for %d command lines" % (len(evs), len(lines))})
     ctx.extra["command_lines"] = len(lines)
     ctx.extra["command_lines_with_short_name_groups"] = sum(1 for x in lines if x.endswith(" -1"))
+    ctx.extra["command_lines_crashing_the_parser"] = len(crashes)
     total += len(lines)
     if exs:
         ctx.sample({"command_line": lines[len(lines) // 2], "event": exs[len(exs) // 2][0]})
-        ctx.sample(next(({"command_line": ln, "event": e[0]} for ln, e in zip(lines, exs) if ln.startswith("1132,") and ln.endswith("1,2,0 -1")),
-                        {"command_line": lines[-1], "event": exs[-1][0]}))
+        ctx.sample(next((e[0] for e in exs if e[0]["argv"][:1] == [1132] and e[0]["np"] == [1, 2, 0] and len(e[0]["argv"]) == 5), exs[-1][0]))
+    for e in crashes[:2]:
+        ctx.violation("parsec_cmd_line_parse crashed (%s) on the command line '%s' (tokens, parameters per option, short names: see "
+                      "CmdLine.tla); %d of the %d command lines crash the parser"
+                      % (e.get("rc"), e.get("input", e.get("raw")), len(crashes), len(lines)),
+                      {"trace_module": "CmdLineTrace", "events": [e]})
     fails += [("command line parsing", "CmdLineTrace", f)
               for f in ctx.validate("Util", "CmdLineTrace", "CmdLineTrace.cfg", exs, batch=4000, timeout=1500)]
 
